@@ -1,7 +1,17 @@
 #!/bin/bash
-# usage: tools/try_mutant.sh <patch.diff> <ID> [<ID>...]   -- apply a seeded patch to /repo, run checks, undo
-P=$1; shift
-cd /repo && git apply "$P" || { echo "patch does not apply"; exit 2; }
+# usage: tools/try_mutant.sh <patch.diff> <ID> [<ID>...]
+# Apply a seeded patch in a scratch worktree of /repo's HEAD (never in /repo), run the named checks against that tree
+# through VERIF_REPO (own cache / evidence directories), remove the worktree.
+P=$(readlink -f "$1"); shift
+W=/tmp/mut/wt-$$
+mkdir -p /tmp/mut
+git -C /repo worktree prune
+git -C /repo worktree add -f --detach $W HEAD >/dev/null 2>&1 || { echo "cannot create worktree"; exit 2; }
+( cd $W && git apply "$P" ) || { echo "patch does not apply"; git -C /repo worktree remove --force $W; exit 2; }
 cd /verif
-for id in "$@"; do ./verif check $id ${TIER:+--tier $TIER} 2>&1 | tail -${TAIL:-12}; done
-git -C /repo checkout -- . ; git -C /repo status --short | head -3
+for id in "$@"; do
+  VERIF_REPO=$W VERIF_CACHE=/tmp/mut/cache VERIF_SCRATCH=/tmp/mut/scratch-$$ VERIF_EVIDENCE=/tmp/mut/evidence-$$ \
+    ./verif check $id ${TIER:+--tier $TIER} 2>&1 | tail -${TAIL:-12}
+done
+git -C /repo worktree remove --force $W
+rm -rf /tmp/mut/scratch-$$ /tmp/mut/evidence-$$
